@@ -17,7 +17,8 @@ slices=()   # "engine flavour extra-args"
 case "$PROP" in
   C11) slices=("gcsim plain" "gcsim asan" "gcsim tsan") ;;
   C12) slices=("gcsim plain" "gcsim asan" "gcsim tsan") ;;
-  C02|C04) slices=("qhist plain" "qhist tsan --mode bigreg") ;;
+  C02) slices=("qhist plain" "qhist tsan --mode bigreg" "rngreal real") ;;
+  C04) slices=("qhist plain" "qhist tsan --mode bigreg") ;;
   C03|C05|C06) slices=("qhist plain") ;;
   C17|C18) slices=("clirun plain") ;;
   C19) slices=("fssim plain") ;;
